@@ -27,6 +27,7 @@ type Config struct {
 	SchedMode  int  // 0 = run-to-block, 1 = symbolic scheduler
 	CtxBound   int  // max preemptive context switches (symbolic scheduler)
 	EnvFires   int  // max environment (ticker/timer) firings per path
+	NPBound    int  // max free scheduling choices at blocking points per path (0 = unbounded)
 	EnvLazy    bool // tickers/timers fire only when every goroutine is blocked (no "fires now" choice)
 	Solver     string
 	TimeoutMS  int
@@ -152,6 +153,7 @@ type Run struct {
 	abortWith *abortRun
 	schedTrace []int
 	ctxSwitches int
+	npChoices int
 	envFires int
 	nextChanID int
 	fsys *fsModel
